@@ -233,7 +233,8 @@ func selfcheckStd(p *Program) int {
 		ls = append(ls, lemma{"VXStdAtoi", []ArgSpec{ArgTmpl(t)}})
 	}
 	ls = append(ls, lemma{"VXStdFold2", []ArgSpec{ArgTmpl(A(3))}})
-	for _, t := range []string{"{[0-9+\\-a_]}{[0-9a_]}{d}", "{d}{d}{d}{d}", "{[+\\-]}{d}"} {
+	ls = append(ls, lemma{"VXStdSentinel", []ArgSpec{ArgTmpl("{i}{i}")}})
+	for _, t := range []string{"{[0-9+\\-a_]}{[0-9a_]}{d}", "{d}{d}{d}{d}", "{[+\\-]}{d}", "{i}{i}", "{[0-9+\\-a_A]}{[0-9a_A\\-]}{[0-9A\\-]}"} {
 		ls = append(ls, lemma{"VXStdParseInt", []ArgSpec{ArgTmpl(t)}})
 	}
 	// for-range rune decoding over all byte strings of length 1-3 and 4-byte strings with a 4-byte lead
